@@ -249,8 +249,8 @@ class UnitBuild:
                     emit(text, {'kind': kind, 'fn': cname, 'tag': tag, 'text': text, 'role': 'target'})
             body = self.inject_loops(cname, body)
             emit(body)
-        for cname in cfg.get('contracts', {}):
-            if cname not in ctx.fn_decls:
+        for cname, cc in cfg.get('contracts', {}).items():
+            if cname not in ctx.fn_decls and not cc.get('optional'):
                 raise Unsupported('the spec has a contract for %s but no such function was lowered in this unit (have: %s)' % (cname, ', '.join(sorted(ctx.fn_decls))))
         if self.target_cname not in cfg.get('contracts', {}) and not cfg.get('harness') and not cfg.get('draft'):
             raise Unsupported('target %s has no contract in the spec' % self.target_cname)
@@ -431,7 +431,7 @@ def verify(cfile, workdir, cfg, target_cname, build):
     for cname, mode in ctx.fn_mode.items():
         if mode in ('contract', 'stub') and cname in ctx.fn_decls:
             cmd += ['--replace-call-with-contract', cname]
-    has_loops = any(c.get('loops') for c in cfg.get('contracts', {}).values())
+    has_loops = any(c.get('loops') for n, c in cfg.get('contracts', {}).items() if n in getattr(ctx, 'fn_bodies_names', [n]))
     if has_loops:
         cmd += ['--apply-loop-contracts']
     cmd += [a_gb, b_gb]
